@@ -211,6 +211,8 @@ def orderings_B(info, n, tier):
     if kind in ("indiv", "ohv"):
         if n >= 5 and info["enc"] != "subset":
             return allw[::5]
+        if n >= 4 and info["enc"] != "subset" and tier != "thorough":
+            return allw[::3]
         return allw
     strict = [r for r in allw if len(set(r)) == n]
     pick = [strict[1 % len(strict)], strict[-2], next(r for r in allw if len(set(r)) == n - 1), tuple([0] * n)]
@@ -236,7 +238,7 @@ def cases_B_SO(info, n, tier):
         if t == 2:
             ords = ords[::4]
         for ranks in ords:
-            for design in designs_B(info, n):
+            for design in designs_B_SO(info, n, tier):
                 for vi in vis:
                     combos = [(w, o, pi) for w in wts for o in opts for pi in range(len(F["params"]))]
                     if T:
@@ -619,6 +621,15 @@ def designs_B(info, n):
                 if c * p <= 6:
                     out.append((c, p))
     return out
+
+
+def designs_B_SO(info, n, tier):
+    d = designs_B(info, n)
+    if tier != "thorough" and info["enc"] != "subset" and not info["mate"]:
+        # with an exact optimiser the vector encodings of truncation criteria put all weight on the best unit(s):
+        # the design only shapes the (part A) sampling, so a covering subset of designs is used in the quick tier
+        d = [x for x in d if x in ((1, 1), (1, 3), (2, 2), (3, 2))]
+    return d
 
 
 def _population(n, t, ranks, seed, variant, fam):
